@@ -425,6 +425,11 @@ def run_misc(spec, stt):
     must_raise("non-signal items", lambda: pb.concatenate([z.data, z.data]), (TypeError,))
     if spec["cls"] == "Signal":
         must_raise("axis='freq' for plain Signals", lambda: pb.concatenate([z, z], axis="freq"), (TypeError, ValueError))
+    # an axis the signals do not have is refused (not taken modulo the rank: concatenate([s, s], axis=-2) on 1-D signals would otherwise join
+    # two overlapping pieces along time without the contiguity test)
+    for bad_axis in (z.ndim, z.ndim + 1, -z.ndim - 1, -z.ndim - 2, -2 * z.ndim - 1):
+        must_raise("concatenate([z, z], axis=%d) for %d-dimensional signals" % (bad_axis, z.ndim), lambda: pb.concatenate([z, z], axis=bad_axis),
+                   (ValueError, IndexError, TypeError))
     with lib("single signal"):
         y = pb.concatenate([z])
     check(bits_equal(np.asarray(y.data), np.asarray(z.data)) and type(y) is type(z), "concatenate([z]) != z")
@@ -446,6 +451,6 @@ SUBS = [
     Sub("long_signals", long_case(), run_long,
         "signals of 1e5 .. 2e6 samples cut in the last quarter: the split is reproduced; a gap/overlap of 1-3 samples or a start time moved by 1-3 "
         "samples is refused however many samples precede it; all non-trivial", quick=40, thorough=400, pieces_quick=2),
-    Sub("misc", G.signal_spec(nmin=1, nmax=8, nchan_max=3, max_trailing=1), run_misc, "empty list, non-signals, 'freq' on plain signals, single "
+    Sub("misc", G.signal_spec(nmin=1, nmax=8, nchan_max=3, max_trailing=1), run_misc, "empty list, non-signals, 'freq' on plain signals, axis numbers outside the rank, single "
         "signal", quick=60, thorough=600, pieces_quick=1),
 ]
